@@ -1,5 +1,5 @@
 SPEC = {
-    "lean_modules": ["AM.Props.Registry", "AM.Props.Suppress", "AM.Props.C01", "AM.Props.C07", "AM.Props.C14"],
+    "lean_modules": ["AM.Props.Registry", "AM.Props.Suppress", "AM.Props.C01", "AM.Props.C07", "AM.Props.C14", "AM.Props.C13", "AM.Props.C17"],
     "theorems": [
         "AM.Registry.subscribe_keeps_served",
         "AM.Suppress.unsuppressed_firing_listed", "AM.Suppress.surviving_iff",
@@ -10,6 +10,8 @@ SPEC = {
         "AM.Dedup.inv_everywhere", "AM.Dedup.logged_with_firing_was_sent",
         "AM.Group.ginv_step", "AM.Group.ginv_run", "AM.Group.refused_iff_map_full", "AM.Group.count_le_limit",
         "AM.Route.match_nonempty", "AM.Route.every_selected_route_has_receiver",
+        "AM.Ingest.post_defaults", "AM.Ingest.timeout_end_pushed_forward",
+        "AM.Config.successful_reload_applies", "AM.Config.failed_reload_keeps_running", "AM.Config.failed_reload_keeps_config",
     ],
     "engines": [
         {"name": "sys", "pkg": "./sys", "timeout_quick": 90, "search_cases": 6000},
@@ -19,7 +21,10 @@ SPEC = {
         # store-and-publish atomicity of the provider: two real concurrent submitters, a dawdling PostStore callback
         {"name": "putorder", "pkg": "./putorder", "timeout_quick": 120, "search_cases": 600},
         # a reload that fails must leave the running dispatcher consuming alerts (C17's engine: the real reload closure)
-        {"name": "reload", "pkg": "./reload", "search_cases": 4, "timeout_quick": 400, "timeout_thorough": 900, "timeout_search": 400, "only": ["failed_reload_keeps_running", "failed_reload_keeps_config"]},
+        {"name": "reload", "pkg": "./reload", "search_cases": 4, "timeout_quick": 400, "timeout_thorough": 900, "timeout_search": 400, "only": ["failed_reload_keeps_running", "failed_reload_keeps_config", "successful_reload_applies"]},
+        # when a firing alert stops being "continuously firing" is decided at ingestion: an alert re-sent without endsAt ends resolve_timeout after
+        # the RECEIVE time, every re-send pushes that end forward (C13's engine)
+        {"name": "ingest", "pkg": "./ingest", "search_cases": 8000, "quick_cases": 1500, "only": ["post_defaults", "timeout_end_pushed_forward"]},
         # "the latest notification for its group never omits it": updates of one alert reach its group in submission order also
         # under a backlog of the ingestion workers (C14's engine)
         {"name": "workers", "pkg": "./workers", "search_cases": 4000, "quick_cases": 2500, "only": ["final_is_last_submitted"]},
